@@ -306,7 +306,7 @@ fn ctap_level(rep: &mut Report, seed: u64, idx: u64) {
     use crate::{exec::block_on, util::{descriptor, ga_request, mc_request, pk_param, Rig}};
     use passkey_types::ctap2::{extensions::{AuthenticatorPrfInputs, AuthenticatorPrfValues}, get_assertion, make_credential};
     let mut rng = Rng::derive(seed, "c09ctap", idx);
-    let cfg = AuthCfg { counters: rng.bool(), id_len: None, hmac: *rng.pick(&[HmacCfg::None, HmacCfg::UvOnly, HmacCfg::WithoutUv, HmacCfg::WithoutUv]), hmac_mc: rng.bool() };
+    let cfg = AuthCfg { counters: rng.bool(), id_len: None, hmac: *rng.pick(&[HmacCfg::None, HmacCfg::UvOnly, HmacCfg::WithoutUv, HmacCfg::WithoutUv]), hmac_mc: rng.bool(), ..Default::default() };
     let verified = !rng.chance(1, 3);
     let rig = Rig::new(Disc::Full, UvOutcome::Check { presence: true, verification: verified }, Some(true));
     let mut auth = rig.auth(cfg);
@@ -552,6 +552,7 @@ pub fn run(args: &Args) -> Report {
             id_len: None,
             hmac: *rng.pick(&[HmacCfg::None, HmacCfg::UvOnly, HmacCfg::UvOnly, HmacCfg::WithoutUv, HmacCfg::WithoutUv, HmacCfg::WithoutUv]),
             hmac_mc: rng.bool(),
+            ..Default::default()
         };
         let ops = gen_history(&mut rng);
         let res = catch(|| {
